@@ -13,7 +13,7 @@ import (
 	"github.com/mithrandie/csvq/lib/value"
 )
 
-var verifC07Order [6]parser.SelectQuery
+var verifC07Order [8]parser.SelectQuery
 var verifC07Cut [2]parser.SelectQuery
 var verifC07Pct [2]parser.SelectQuery
 var verifC07PctLarge parser.SelectQuery
@@ -29,6 +29,9 @@ func VerifC07Setup() {
 			i++
 		}
 	}
+	// the view is first reordered by an analytic function's own ORDER BY, then sorted again
+	verifC07Order[6] = verifParseSelect("select id, k, rank() over (order by k desc) from t order by k")
+	verifC07Order[7] = verifParseSelect("select id, k from t order by rank() over (order by k desc) desc, id desc")
 	verifC07Cut[0] = verifParseSelect("select id, k from t order by k limit @l offset @o")
 	verifC07Cut[1] = verifParseSelect("select id, k from t order by k limit @l with ties offset @o")
 	verifC07Pct[0] = verifParseSelect("select id, k from t order by k limit @p percent offset @o")
@@ -119,9 +122,18 @@ func VerifC07Order() {
 	scope := NewReferenceScope(tx)
 	n := verifChoice("n", verifBound(4, 5))
 	t := verifC07Rows(scope, n, true)
-	qi := verifChoice("query", 6)
-	desc := qi >= 3
+	qi := verifChoice("query", 8)
+	desc := qi >= 3 && qi < 6
 	nullMode := qi % 3 // 0 default, 1 first, 2 last
+	if qi >= 6 {
+		nullMode = 0
+		if qi == 7 {
+			// rank() over (order by k desc) desc == k ascending with NULLs (rank 1 under DESC: nulls last -> highest rank) first
+			for i := 0; i < n; i++ {
+				verifAssume(!t.isNull[i])
+			}
+		}
+	}
 	view, err := Select(verifCtx(), scope, verifC07Order[qi])
 	verifAssert("select succeeds", err == nil)
 	nullsFirst := nullMode == 1 || (nullMode == 0 && !desc)
